@@ -80,6 +80,8 @@ class ExportJK(taps.Monitor):
         exp = R.jackknife(x, central=value)
         ctx.close(res[1:], exp[1:], 'export_jackknife:not-leave-one-out-mean', 'call-level, x = r_value + deltas', rtol=1e-11, scale=sample_scale(x, value),
                   detail={'N': n, 'name': name})
+        # the observable the caller holds is what it was before the export
+        ctx.equal(chain_view(args[0]), token, 'export_jackknife:observable-modified-by-export', 'argument after the call')
 
 
 class ExportBS(taps.Monitor):
@@ -93,6 +95,11 @@ class ExportBS(taps.Monitor):
             table = [[int(j) for j in row] for row in table]
         return v + (samples, table)
 
+    @staticmethod
+    def table_now(args, kwargs):
+        t = kwargs.get('random_numbers', args[2] if len(args) > 2 else None)
+        return None if t is None else [[int(j) for j in row] for row in t]
+
     def after(self, token, args, kwargs, result, exc):
         ctx = CTX
         if token is None or exc is not None:
@@ -100,6 +107,10 @@ class ExportBS(taps.Monitor):
             return
         name, value, x, samples, table = token
         n = len(x)
+        # the observable and the table the caller holds are what they were before the export
+        ctx.equal(chain_view(args[0]), (name, value, x), 'export_bootstrap:observable-modified-by-export', 'argument after the call')
+        if table is not None:
+            ctx.equal(self.table_now(args, kwargs), table, 'export_bootstrap:table-modified-by-export', 'argument after the call')
         how = 'supplied-table'
         if table is None:
             table = R.default_table(name, int(samples), n)
@@ -180,6 +191,7 @@ class ImportBS(taps.Monitor):
         ctx.equal(bool(np.array_equal(now, boots, equal_nan=True)), True, 'import_bootstrap:samples-array-modified-by-import', 'argument after the call', detail={'before': boots[:6], 'after': now[:6]})
         tnow = np.array(kwargs['random_numbers'] if 'random_numbers' in kwargs else args[2])
         ctx.equal(bool(tnow.shape == table.shape and np.array_equal(tnow, table)), True, 'import_bootstrap:table-modified-by-import', 'argument after the call')
+        ctx.count('judged:import_bootstrap:accepted-fewer-samples-than-configurations/inconsistent-shapes')
         if k < n or len(boots) - 1 != k:
             ctx.ev()
             ctx.violation('import_bootstrap:accepted-fewer-samples-than-configurations' if k < n else 'import_bootstrap:accepted-inconsistent-shapes',
@@ -198,11 +210,24 @@ class ImportBS(taps.Monitor):
         ctx.close(back, boots[1:], 'import_bootstrap:restored-samples-do-not-reproduce-the-bootstrap-means', 'residual', rtol=1e-11 * cond, scale=sc, atol=1e-300)
 
 
+def count_judgements(ctx, norm=None):
+    """evidence: counter 'judged:<mechanism>' = how often each judgement was evaluated (hardening item 13)"""
+    for meth in ('close', 'equal', 'require'):
+        orig = getattr(ctx, meth)
+
+        def wrapped(*a, _o=orig, _i=(1 if meth == 'require' else 2), **k):
+            mech = k['mechanism'] if 'mechanism' in k else a[_i]
+            ctx.count('judged:' + (norm(mech) if norm else mech))
+            return _o(*a, **k)
+        setattr(ctx, meth, wrapped)
+
+
 def setup(ctx):
     global PE, CTX
     import pyerrors as pe
     PE = pe
     CTX = ctx
+    count_judgements(ctx)
     taps.tap_method(pe.Obs, 'export_jackknife', ExportJK())
     taps.tap_method(pe.Obs, 'export_bootstrap', ExportBS())
     taps.tap_function(pe.obs, 'import_jackknife', ImportJK())
@@ -284,6 +309,7 @@ def check_held(ctx):
     """results handed out earlier must still be what they were (no shared work buffers)"""
     for what, arr, cp in HELD:
         ctx.count('held_results_rechecked')
+        ctx.count('judged:' + what + ':returned-array-changed-by-later-calls')
         ctx.ev()
         if not np.array_equal(arr, cp, equal_nan=True):
             ctx.violation(what + ':returned-array-changed-by-later-calls', {'now_head': arr[:4], 'was_head': cp[:4]})
@@ -343,7 +369,7 @@ def memory_layout(rng, t):
 
 def table_form(rng, t, arrays_only=False):
     n = t.shape[1]
-    forms = ['int64', 'int64', 'int32', 'int16', 'intp'] + (['uint8'] if n <= 255 else []) + ([] if arrays_only else ['lists', 'tuples'])
+    forms = ['int64', 'int64', 'int32', 'int16', 'intp'] + (['uint8'] if n <= 255 else ['int16', 'int16', 'uint16']) + ([] if arrays_only else ['lists', 'tuples'])
     f = str(rng.choice(forms))
     if f == 'lists':
         return [[int(j) for j in row] for row in t], f
@@ -504,6 +530,7 @@ def case_bs_import(ctx, idx, rng):
         bs = o.export_bootstrap(k, random_numbers=t)
     rank, cond = R.rank_and_condition(t, n)
     ctx.cell('import_bs', lkind, lc)
+    ctx.count('judged:import_bootstrap:rejects-a-determined-table')
     ctx.cell('import_bs', 'samples==configurations' if k == n else 'samples>configurations')
     ti, form = table_form(rng, np.asarray(t), arrays_only=True)
     ctx.cell('import_table', form)
@@ -532,10 +559,28 @@ def case_bs_import(ctx, idx, rng):
 def case_bs_reject(ctx, idx, rng):
     n = int(rng.choice([5, 6, 9, 20, 60]))
     o, name, idl, cfgs, chain, lkind, dkind = make_obs(rng, n)
+    if idx % 3 == 2:
+        # as many rows as needed, but one bootstrap sample too few / too many for the table: the pair does not belong together
+        k = int(rng.choice([n, n + 2, 2 * n]))
+        t = rand_table(rng, k, n)
+        bs = o.export_bootstrap(k, random_numbers=t)
+        bs = bs[:-1] if idx % 2 else np.concatenate([bs, bs[-1:]])
+        ctx.count('import_bs_rejections_required')
+        ctx.count('judged:import_bootstrap:accepted-inconsistent-shapes(workload)')
+        ctx.cell('import_bs', 'samples-do-not-match-the-table')
+        ctx.ev()
+        try:
+            imp = PE.import_bootstrap(bs, name, t)
+        except REJECT:
+            ctx.nontrivial.add(digest('reject-shape', name, n, k, sorted(chain.items())))
+            return
+        ctx.violation('import_bootstrap:accepted-inconsistent-shapes', {'N': n, 'rows': k, 'len_boots': len(bs), 'returned': repr(imp)})
+        return
     k = int(rng.choice([1, 2, n // 2, n - 2, n - 1, n - 1]))
     t = rand_table(rng, k, n)
     bs = o.export_bootstrap(k, random_numbers=t)
     ctx.count('import_bs_rejections_required')
+    ctx.count('judged:import_bootstrap:accepted-fewer-samples-than-configurations(workload)')
     ctx.cell('import_bs', 'fewer-samples-than-configurations', 'k=N-1' if k == n - 1 else 'k<N-1')
     ctx.ev()
     try:
@@ -556,9 +601,13 @@ def case_derived(ctx, idx, rng):
     if len(sub) < 5:
         sub = cfgs
     b = PE.Obs([rng.normal(size=len(sub)) + 2.0], [name], idl=[sub])
-    if idx % 3 == 2:
+    if (idx // 3) % 3 == 1:
         o = a * a + a - b * a          # the same observable in several slots of one operation
         ctx.cell('derived', 'same-object-in-several-slots')
+    elif (idx // 3) % 3 == 2:
+        # a spectator: an observable on other configurations of the chain that enters with weight exactly zero, first or last
+        o = (0.0 * b + a) if idx % 2 else (np.cos(a) + 0.0 * b)
+        ctx.cell('derived', 'spectator-with-zero-weight')
     else:
         o = np.sin(a) * b + a / (b * b + 1.0)
     sn = snap(o)
@@ -639,13 +688,20 @@ def case_history(ctx, idx, rng):
         key = (j, mode, k if mode != 'jackknife' else 0)
         if key in held:
             ctx.ev()
+            ctx.count('judged:history:same-request-gives-different-samples-later')
             if not np.array_equal(held[key][0], res):
                 ctx.violation('history:same-request-gives-different-samples-later', {'request': [name, o.N, mode, k]})
         else:
             held[key] = (res, res.copy())
+    # two lists with equal length, first and last configuration but other members: each import must carry the list it was given
+    for j, cf in ((0, cfgs), (3, twin_cfgs)):
+        jk = pool[j][0].export_jackknife()
+        imp = PE.import_jackknife(jk, pool[j][1], [list(cf)])
+        ctx.equal([int(i) for i in imp.idl[pool[j][1]]], [int(i) for i in cf], 'import_jackknife:configuration-list', 'equal summary, other members')
     for key, (res, cp) in held.items():
         ctx.ev()
         ctx.count('held_results_rechecked')
+        ctx.count('judged:history:returned-array-changed-by-later-calls')
         if not np.array_equal(res, cp):
             ctx.violation('history:returned-array-changed-by-later-calls', {'request': list(key)})
     ctx.cell('history', 'names', 'prefix' if na.split('|')[0] in nb or nb.split('|')[0] in na else 'other')
